@@ -21,8 +21,8 @@ impl Component for E2e {
          the stream was established and at least one datagram was judged by the no-blackout monitor."
     }
 
-    fn gen_case(&mut self, rng: &mut Rng, _tier: Tier, _idx: usize) -> Vec<String> {
-        vec![format!("looptrace {}", lt::generate_e2e(rng).render())]
+    fn gen_case(&mut self, rng: &mut Rng, _tier: Tier, idx: usize) -> Vec<String> {
+        vec![format!("looptrace {}", lt::generate_e2e(rng, idx).render())]
     }
 
     fn start_case(&mut self) {}
